@@ -5,6 +5,7 @@
 //   {"id":"b12","fam":"SCRAM","mech":"SCRAM-SHA-256","v":1|2,"fast":false,"user":"..","pw":"..","domain":"..",
 //    "cnonce":"..","token":"..",
 //    "steps":[{"a":"Challenge|Success|Failure|Continue","t":"SF","x":"ext","y":"ok","z":"ok","data":"<base64>"|null},..]}
+//   (for Failure, "data" is the name of the error condition element)
 // The client nonce is forced through QXmppSaslDigestMd5::setNonce (the library's own test seam), so the
 // whole exchange is a function of the input.  The driver knows nothing about the mechanisms: it wraps the
 // given data into the SASL / SASL 2 elements and records what the client sent and reported.
@@ -158,8 +159,9 @@ QDomElement makeElement(QDomDocument &doc, int v, const QJsonObject &s, const QS
             textChild(el, ns, "authorization-identifier", jid);
         }
     } else if (a == "Failure") {
+        // condition: "data" names it (the server answers an <abort/> with <aborted/>), default not-authorized
         el = doc.createElementNS(ns, "failure");
-        el.appendChild(doc.createElementNS(nsSasl, "not-authorized"));
+        el.appendChild(doc.createElementNS(nsSasl, hasData && !data.isEmpty() ? data : QStringLiteral("not-authorized")));
     } else if (a == "Continue") {
         el = doc.createElementNS(nsSasl2, "continue");
         textChild(el, nsSasl2, "additional-data", "SSdtIGJvcmVkIG5vdy4=");
